@@ -332,6 +332,7 @@ type FTarget struct {
 }
 
 type FResult struct {
+	Wrap    string
 	T       FTarget
 	Ops     []FOp
 	Nin     int
@@ -407,6 +408,7 @@ func ftranslate(prog *ssa.Program, pkg *ssa.Package, globals map[*ssa.Global]*Ce
 			fail("unknown field-level arg spec %q", spec)
 		}
 	}
+	res.Wrap = fgenWrap(fn, t)
 	// inputs are numbered first: shift nothing, ops were not emitted yet
 	if len(fl.ops) != 0 {
 		fail("internal: ops emitted before inputs were numbered")
@@ -523,7 +525,75 @@ func fopShallow(o FOp) string {
 
 func fopTxt(o FOp) string { return strings.TrimPrefix(strings.NewReplacer("[", "", "]", "", ",", "").Replace(fopLean(o)), ".") }
 
-func frender(results []FResult, leanDir, txt string) int {
+// fgenWrap: Go source of a closure that runs the REAL function on field elements given as 32-byte strings (stream T2)
+func fgenWrap(fn *ssa.Function, t FTarget) string {
+	var sb strings.Builder
+	q := func(ty types.Type) string {
+		return types.TypeString(ty, func(p *types.Package) string {
+			if p == fn.Pkg.Pkg {
+				return ""
+			}
+			return p.Name()
+		})
+	}
+	fmt.Fprintf(&sb, "\tverifFL[%q] = func(in [][]byte, bools []int) (out [][]byte, bout []int) {\n", t.Group+"."+t.Name)
+	var callArgs, post []string
+	for i, spec := range t.Args {
+		pt := fn.Params[i].Type()
+		kind, param := spec, ""
+		if j := strings.Index(spec, ":"); j >= 0 {
+			kind, param = spec[:j], spec[j+1:]
+		}
+		v := fmt.Sprintf("a%d", i)
+		switch kind {
+		case "in", "out", "inout":
+			el := pt.Underlying().(*types.Pointer).Elem()
+			fmt.Fprintf(&sb, "\t\tvar %s %s\n", v, q(el))
+			if kind != "out" {
+				fmt.Fprintf(&sb, "\t\tin = verifFLFill(&%s, in)\n", v)
+			}
+			if kind != "in" {
+				post = append(post, fmt.Sprintf("\t\tout, bout = verifFLRead(&%s, out, bout)\n", v))
+			}
+			callArgs = append(callArgs, "&"+v)
+		case "bool":
+			fmt.Fprintf(&sb, "\t\t%s := %s(bools[0])\n\t\tbools = bools[1:]\n", v, q(pt))
+			callArgs = append(callArgs, v)
+		case "const":
+			callArgs = append(callArgs, fmt.Sprintf("%s(%s)", q(pt), param))
+		}
+	}
+	call := ""
+	if fn.Signature.Recv() != nil {
+		call = fmt.Sprintf("(%s).%s(%s)", callArgs[0], fn.Name(), strings.Join(callArgs[1:], ", "))
+	} else {
+		call = fmt.Sprintf("%s(%s)", fn.Name(), strings.Join(callArgs, ", "))
+	}
+	nres := fn.Signature.Results().Len()
+	if t.Ret == "out" && nres > 0 {
+		rs := make([]string, nres)
+		for i := range rs {
+			rs[i] = fmt.Sprintf("r%d", i)
+			post = append(post, fmt.Sprintf("\t\tout, bout = verifFLRead(&r%d, out, bout)\n", i))
+		}
+		fmt.Fprintf(&sb, "\t\t%s := %s\n", strings.Join(rs, ", "), call)
+	} else if nres > 0 {
+		blanks := make([]string, nres)
+		for i := range blanks {
+			blanks[i] = "_"
+		}
+		fmt.Fprintf(&sb, "\t\t%s = %s\n", strings.Join(blanks, ", "), call)
+	} else {
+		fmt.Fprintf(&sb, "\t\t%s\n", call)
+	}
+	for _, l := range post {
+		sb.WriteString(l)
+	}
+	sb.WriteString("\t\t_, _ = in, bools\n\t\treturn out, bout\n\t}\n")
+	return sb.String()
+}
+
+func frender(results []FResult, leanDir, txt, gowrap string) int {
 	exit := 0
 	if leanDir != "" {
 		os.MkdirAll(leanDir, 0o755)
@@ -602,7 +672,14 @@ func frender(results []FResult, leanDir, txt string) int {
 					sb.WriteString("\n")
 				}
 			}
-			fmt.Fprintf(&txtb, "fprog %s.%s %d %s", g, r.T.Name, r.Nin, strings.Trim(strings.ReplaceAll(intList(r.Outs), " ", ""), "[]"))
+			kindStr := "-"
+			if len(r.InKinds) > 0 {
+				kindStr = ""
+				for _, k := range r.InKinds {
+					kindStr += k[:1]
+				}
+			}
+			fmt.Fprintf(&txtb, "fprog %s.%s %d %s %s", g, r.T.Name, r.Nin, kindStr, strings.Trim(strings.ReplaceAll(intList(r.Outs), " ", ""), "[]"))
 			for _, o := range r.Ops {
 				fmt.Fprintf(&txtb, " ; %s", fopTxt(o))
 			}
@@ -611,6 +688,52 @@ func frender(results []FResult, leanDir, txt string) int {
 		fmt.Fprintf(&sb, "\nend Voi.Gen.%s\n", g)
 		if leanDir != "" {
 			if err := os.WriteFile(filepath.Join(leanDir, "FL_"+g+"_"+r.T.Name+".lean"), []byte(sb.String()), 0o644); err != nil {
+				panic(err)
+			}
+		}
+	}
+	if gowrap != "" {
+		filepath.Walk(gowrap, func(p string, fi os.FileInfo, err error) error {
+			if err == nil && !fi.IsDir() && strings.HasPrefix(filepath.Base(p), "verif_fl_") {
+				os.Remove(p)
+			}
+			return nil
+		})
+		type gk struct{ pkg, group string }
+		by := map[gk][]FResult{}
+		var order []gk
+		for _, r := range results {
+			k := gk{r.T.Pkg, r.T.Group}
+			if _, ok := by[k]; !ok {
+				order = append(order, k)
+			}
+			by[k] = append(by[k], r)
+		}
+		for _, k := range order {
+			cons := "verif && !force32bit"
+			if strings.Contains(by[k][0].T.Tags, "force32bit") {
+				cons = "verif && force32bit"
+			}
+			var sb strings.Builder
+			imp := ""
+			if !strings.HasSuffix(k.pkg, "internal/field") {
+				imp = "import \"" + modulePath + "/internal/field\"\n\nvar _ field.Element\n\n"
+			}
+			fmt.Fprintf(&sb, "// Code generated by go2ir -flevel; DO NOT EDIT.\n\n//go:build %s\n\npackage %s\n\n%sfunc init() {\n", cons, filepath.Base(k.pkg), imp)
+			for _, r := range by[k] {
+				if r.Err == "" {
+					kinds := ""
+					for _, kd := range r.InKinds {
+						kinds += kd[:1]
+					}
+					fmt.Fprintf(&sb, "\tverifFLSig[%q] = %q\n", r.T.Group+"."+r.T.Name, kinds)
+					sb.WriteString(r.Wrap)
+				}
+			}
+			sb.WriteString("}\n")
+			dir := filepath.Join(gowrap, k.pkg)
+			os.MkdirAll(dir, 0o755)
+			if err := os.WriteFile(filepath.Join(dir, "verif_fl_"+strings.ToLower(k.group)+".go"), []byte(sb.String()), 0o644); err != nil {
 				panic(err)
 			}
 		}
